@@ -78,7 +78,7 @@ Fixpoint spec_history (fuel : nat) (M : module) (g : RefSem.frame) (cs : list ca
 (** ---- comparison with the implementation's observations *)
 Definition errkind_eqb (a b : errkind) : bool :=
   match a, b with
-  | EZeroDiv, EZeroDiv | EIndex, EIndex | EKey, EKey | EType, EType | EAssert, EAssert | EICE, EICE | EAttr, EAttr
+  | EZeroDiv, EZeroDiv | EIndex, EIndex | EKey _, EKey _ | EType, EType | EAssert, EAssert | EICE, EICE | EAttr, EAttr
   | EValue, EValue | EOverflow, EOverflow | EUnhandledOpcode, EUnhandledOpcode => true
   | _, _ => false
   end.
@@ -128,3 +128,18 @@ Definition ir_case (M : module) (P : program) : Z :=
   | CUnmodelled => 4
   | _ => 5
   end.
+
+(** ---- C14: the executable well-formedness check on a dumped program: 0 well-formed, 32 not *)
+From NSL Require Import Model.WfIR.
+Definition wf_case (P : program) : Z := if wf_program_b P then 0 else 32.
+
+(** ---- C02: the optimiser model against the real optimised IR (given the real unoptimised IR):
+    0 equal, 128 different, 256 outside the model *)
+From NSL Require Import Model.Opt.
+Definition opt_case (P Popt : program) : Z :=
+  match optimise P with
+  | OOk P' => if program_eqb P' Popt then 0 else 128
+  | ORaise => 128
+  | OUnmodelled => 256
+  end.
+(** value and globals of the two runs of the implementation must coincide: handled by the harness through two run cases *)
